@@ -119,7 +119,7 @@ P["C16"] = {
              "right at the buffer end (alignment skip + refill), interleaved unaligned fill_bytes/next_u32/next_u64, >1024 words in a row, walks over several "
              "refills; each sequence ends with a 16-byte probe that observes the final state. The model gets the BLAKE3 blocks as data (recomputed in the harness "
              "with the blake3 crate from seed ++ counter_le64, independently of BlakeRNG). Samplers ternary / centered_binomial / uniform for 1..6 moduli "
-             "(22..2^61-1, powers of two, moduli with frequent rejections), degrees 1..1100, generator started at aligned and unaligned positions and across the refill; "
+             "(2..2^61-1 including moduli not above the error bound 21, powers of two, moduli with frequent rejections), degrees 1..1100, generator started at aligned and unaligned positions and across the refill; "
              "hamming_weight on all 256 bytes. Histories of key generations / (a)symmetric encryptions / public keys / relinearization keys on real BFV/CKKS/BGV "
              "contexts with 1..6 coefficient primes under the entropy override (hook), every operation compared with the model of where generators are obtained "
              "(stored seed, mask, noise polynomials, number of fresh generators, state of a caller-supplied generator afterwards). Verdict lines (!OK/!FAIL, harness "
@@ -130,7 +130,7 @@ P["C16"] = {
         "PARTIAL (outside the model, checked empirically by the harness, labelled as tests `empirical-test`): the stream does not repeat within the explored length (16-byte windows over 4 MiB quick / 64 MiB thorough), streams of seeds differing in one bit differ, OS entropy (ChaCha20Rng::from_entropy) never repeats; theorem stored_seeds_fresh takes the corresponding injectivity as a hypothesis, draws_fresh takes injectivity of the entropy source. The distribution of the error sample is a theorem (cbd_distribution: exactly 64*C(42,v+21) of the 2^48 byte draws give v; variance 21/2) GIVEN uniform stream bytes; that the bytes are uniform, and the distributions of ternary / uniform samples (which depend on rand's rejection sampling over a uniform stream), are checked empirically only (chi-square tests).",
         "rand 0.8.5 `Uniform`: a parameter with the contract `sample in [lo, hi]`; the instance that follows UniformInt::sample (widening multiply, rejection zone) is proved to meet the contract and is what the driver runs (bit-exact agreement with the crate is established by correspondence only). Its rejection loop is modelled with fuel 4096.",
         "little-endian host (next_u32/next_u64 read the buffer through a raw pointer; a misaligned buffer address would be UB: the struct is #[repr(align(8))] and the observed field layout puts the buffer at a multiple of 8); `x & !m` is modelled as floor(x/(m+1))*(m+1) (theorem alignment_as_coded)",
-        "error samples: theorem error_rns_consistent is for moduli above the bound 21; for q <= 21 `q - |e|` underflows (refusal with overflow checks, unreduced word without): recorded in known_findings.json (status known) and reported as KNOWN-FINDING, the spec oracle claims the property for every modulus >= 2",
+        "error samples: after the repair of the small-modulus underflow (|e| is reduced mod q_j before encoding) theorem error_rns_consistent holds for every modulus q_j >= 2 and the encoding never refuses for q_j >= 1 (error_encoding_total); moduli 2..22 are ordinary generator cases (sampler level and CKKS contexts N=2 q=5, N=2 q=13, N=4 q=17)",
         "the history checks use the verif hooks rng_hooks (entropy override, sample tape): add-only, feature-gated code in /repo (hook.patch)",
     ],
 }
